@@ -56,6 +56,9 @@ pub enum TOp {
     Spin(u8),
     /// create this thread's subscriber now (cases with `late_subs`), then read its value
     Subscribe,
+    /// clone an owner and drop the clone again, 4 * (n + 1) times (handle counts move while other
+    /// threads write)
+    CloneChurn(u8),
 }
 
 #[derive(Clone, Debug, Serialize, Deserialize, PartialEq, Eq, Hash)]
@@ -472,6 +475,14 @@ impl ThreadCtx {
                 self.sub = Some(sub);
                 self.last_seen = v;
                 self.recs.push(Rec { thread: self.tid, main: self.main_phase, kind: Kind::Subscribe { sub: self.tid, v }, inv, res });
+            }
+            TOp::CloneChurn(n) => {
+                let Some(o) = self.owner() else { return };
+                for _ in 0..4 * (n as usize + 1) {
+                    let c = o.clone();
+                    std::hint::black_box(&c);
+                    drop(c);
+                }
             }
             TOp::Upgrade => {
                 let inv = t();
@@ -949,6 +960,44 @@ pub fn judge(case: &ThrCase, out: &RunOut, prop: Prop) -> R<CaseReport> {
             }
         }
     }
+    // C04/C01/C02 (real time): between two consecutive events of one subscriber (a poll, next_now or
+    // its subscribe()), a notifying write that was invoked after the first event had returned and
+    // that responded before the second was invoked is unobserved at the second: a poll there
+    // cannot be Pending
+    {
+        let writes: Vec<(u64, u64, &Kind)> = out
+            .recs
+            .iter()
+            .filter(|w| matches!(w.kind, Kind::Set { .. } | Kind::Update { .. } | Kind::WriteSec { .. }) || matches!(w.kind, Kind::SetIfNotEq { prev: Some(_), .. }))
+            .map(|w| (w.inv, w.res, &w.kind))
+            .collect();
+        let mut last_event: std::collections::BTreeMap<usize, u64> = std::collections::BTreeMap::new();
+        for r in &out.recs {
+            let (sub, pending) = match &r.kind {
+                Kind::Poll { sub, res, .. } => (*sub, *res == PR::Pending),
+                Kind::NextNow { sub, .. } => (*sub, false),
+                Kind::Subscribe { sub, .. } => (*sub, false),
+                _ => continue,
+            };
+            if pending {
+                if let Some(prev_res) = last_event.get(&sub) {
+                    rep.checks += 1;
+                    if let Some((_, _, k)) = writes.iter().find(|(winv, wres, _)| winv > prev_res && *wres < r.inv) {
+                        return fail(
+                            prop,
+                            &[C04, C01, C02],
+                            format!(
+                                "subscriber {sub}: poll returned Pending although a notifying write ({:?}) began after the subscriber's previous event had returned and completed before this poll began ({})",
+                                k,
+                                sched()
+                            ),
+                        );
+                    }
+                }
+            }
+            last_event.insert(sub, r.res);
+        }
+    }
     // C04: guard sections
     for r in &out.recs {
         match &r.kind {
@@ -1145,6 +1194,7 @@ pub fn op(directed: bool) -> BoxedStrategy<TOp> {
             1 => Just(TOp::Upgrade),
             2 => n().prop_map(TOp::Spin),
             2 => Just(TOp::Subscribe),
+            2 => (0u8..8).prop_map(TOp::CloneChurn),
         ]
         .boxed()
     }
